@@ -651,3 +651,55 @@ func NestMatrix() *m.Design {
 		Services: []*m.Service{{Name: "nest", HasHTTP: true, Methods: []*m.Method{http}}, {Name: "nestg", HasGRPC: true, Methods: []*m.Method{grpc}}},
 		Features: []string{"fixed-design:nest-matrix", "collections-nested-three-deep"}}
 }
+
+// SecurityMatrix is a fixed design about where credentials travel: the
+// implicit Authorization header next to an explicit request body that does
+// not hold the token, a token header spelled in lower case, a custom token
+// header, API keys in query and header, alternative requirements, Basic
+// credentials, inherited and cancelled requirements.
+func SecurityMatrix() *m.Design {
+	obj := func(fs ...*m.Field) *m.Attr { return &m.Attr{Type: &m.Type{Kind: m.Object, Fields: fs}} }
+	fld := func(n string, a *m.Attr, req bool) *m.Field { return &m.Field{Name: n, Attr: a, Required: req} }
+	str := func() *m.Attr { return m.Prim(m.String) }
+	thing := &m.UserType{Name: "Thing", Var: "sthing", Attr: obj(fld("x", str(), true), fld("n", m.Prim(m.Int), false))}
+	schemes := []*m.Scheme{
+		{Kind: "jwt", Name: "jwt", Var: "sjwt", Scopes: []string{"api:read", "api:write"}},
+		{Kind: "oauth2", Name: "oauth", Var: "soauth", Scopes: []string{"api:read"}},
+		{Kind: "apikey", Name: "key", Var: "skey"},
+		{Kind: "basic", Name: "basic", Var: "sbasic"},
+	}
+	jwtRead := m.Requirement{Schemes: []string{"jwt"}, Scopes: []string{"api:read"}}
+	store := &m.Method{Name: "store", Security: []m.Requirement{{Schemes: []string{"jwt"}, Scopes: []string{"api:write"}}},
+		Creds: []m.Cred{{Scheme: "jwt", Kind: "token", Attr: "token"}}, ImplicitAuth: []string{"token"},
+		Payload: obj(fld("token", str(), true), fld("name", str(), true), fld("item", m.UserRef("Thing"), true)),
+		HTTP: &m.HTTPEndpoint{Routes: []m.Route{{Verb: "PUT", Path: "/sec/items/{name}"}}, Path: []m.Mapping{{Attr: "name"}},
+			Headers: []m.Mapping{{Attr: "token", Wire: "Authorization"}}, Body: &m.Body{Mode: "attr", Attr: "item"}}}
+	fetch := &m.Method{Name: "fetch", Security: []m.Requirement{{Schemes: []string{"oauth"}, Scopes: []string{"api:read"}}},
+		Creds:   []m.Cred{{Scheme: "oauth", Kind: "accesstoken", Attr: "access"}},
+		Payload: obj(fld("access", str(), true), fld("id", str(), true)),
+		HTTP: &m.HTTPEndpoint{Routes: []m.Route{{Verb: "GET", Path: "/sec/items/{id}"}}, Path: []m.Mapping{{Attr: "id"}},
+			Headers: []m.Mapping{{Attr: "access", Wire: "authorization"}}}}
+	rename := &m.Method{Name: "rename", Security: []m.Requirement{jwtRead, {Schemes: []string{"key"}}},
+		Creds:   []m.Cred{{Scheme: "jwt", Kind: "token", Attr: "tok"}, {Scheme: "key", Kind: "apikey", Attr: "k"}},
+		Payload: obj(fld("tok", str(), false), fld("k", str(), false), fld("to", str(), true)),
+		HTTP: &m.HTTPEndpoint{Routes: []m.Route{{Verb: "POST", Path: "/sec/rename"}},
+			Headers: []m.Mapping{{Attr: "tok", Wire: "X-Token"}}, Query: []m.Mapping{{Attr: "k", Wire: "api_key"}}}}
+	both := &m.Method{Name: "both", Security: []m.Requirement{{Schemes: []string{"jwt", "key"}, Scopes: []string{"api:read"}}},
+		Creds:   []m.Cred{{Scheme: "jwt", Kind: "token", Attr: "tok"}, {Scheme: "key", Kind: "apikey", Attr: "k"}},
+		Payload: obj(fld("tok", str(), true), fld("k", str(), true)),
+		HTTP: &m.HTTPEndpoint{Routes: []m.Route{{Verb: "GET", Path: "/sec/both"}},
+			Headers: []m.Mapping{{Attr: "tok", Wire: "Authorization"}, {Attr: "k", Wire: "X-Api-Key"}}}, ImplicitAuth: []string{"tok"}}
+	login := &m.Method{Name: "login", Security: []m.Requirement{{Schemes: []string{"basic"}}},
+		Creds:   []m.Cred{{Scheme: "basic", Kind: "username", Attr: "user"}, {Scheme: "basic", Kind: "password", Attr: "pass"}},
+		Payload: obj(fld("user", str(), true), fld("pass", str(), true)),
+		HTTP:    &m.HTTPEndpoint{Routes: []m.Route{{Verb: "POST", Path: "/sec/login"}}}}
+	inherited := &m.Method{Name: "inherited", Creds: []m.Cred{{Scheme: "jwt", Kind: "token", Attr: "token"}}, ImplicitAuth: []string{"token"},
+		Payload: obj(fld("token", str(), true), fld("q", str(), false)),
+		HTTP:    &m.HTTPEndpoint{Routes: []m.Route{{Verb: "GET", Path: "/sec/inherited"}}, Headers: []m.Mapping{{Attr: "token", Wire: "Authorization"}}, Query: []m.Mapping{{Attr: "q"}}}}
+	open := &m.Method{Name: "open", NoSecurity: true, Payload: obj(fld("q", str(), false)),
+		HTTP: &m.HTTPEndpoint{Routes: []m.Route{{Verb: "GET", Path: "/sec/open"}}, Query: []m.Mapping{{Attr: "q"}}}}
+	return &m.Design{API: m.API{Name: "secmatrix", Title: "Security matrix"},
+		Types: []*m.UserType{thing}, Schemes: schemes,
+		Services: []*m.Service{{Name: "secmatrix", HasHTTP: true, Security: []m.Requirement{jwtRead}, Methods: []*m.Method{store, fetch, rename, both, login, inherited, open}}},
+		Features: []string{"fixed-design:security-matrix", "implicit-authorization", "explicit-body-without-credential", "lower-case-authorization-header", "alternative-requirements", "two-schemes-one-requirement", "inherited-security", "no-security"}}
+}
